@@ -308,6 +308,16 @@ fn main() {
         run.assume("angle convention of the library: atan2(dy, dx) in screen coordinates, positive sweep increases it");
         let dmax = run.tier(96u64, 160u64);
         run.generate("circles", dmax + 1, true, 0.15, |ctx, idx, rng| check_circle(ctx, pos(rng), idx as u32));
+        // a few large shapes (sizes beyond 255)
+        let nlarge = run.tier(12u64, 200u64);
+        run.generate("large-circles-ellipses", nlarge, false, 0.2, |ctx, idx, rng| {
+            let big = *rng.pick(&[255u32, 256, 257, 300, 320, 511, 513]) + rng.u32r(0, 2);
+            match idx % 3 {
+                0 => check_circle(ctx, pos(rng), big),
+                1 => check_ellipse(ctx, pos(rng), big, rng.u32r(1, 90)),
+                _ => check_ellipse(ctx, pos(rng), rng.u32r(1, 90), big),
+            }
+        });
         let emax = run.tier(32u64, 100u64);
         run.generate("ellipses", (emax + 1) * (emax + 1), true, 0.25, |ctx, idx, rng| check_ellipse(ctx, pos(rng), (idx % (emax + 1)) as u32, (idx / (emax + 1)) as u32));
         run.generate("rounded-equal-radii", 13 * 13 * 8 * 8, true, 0.2, |ctx, idx, rng| {
